@@ -54,9 +54,19 @@ def build_history(rng, srv, spool):
         if r < 0.15:
             text2, per2, lim2 = gen_task(rng, uid, now + span * 0.5, span)
             timeline.append((now + span * rng.choice([0.4, 0.5]), "add", (uid, text2, lim2)))
-        elif r < 0.25:
-            timeline.append((now + span * rng.choice([0.5, 0.7]), "cancel", (uid,)))
-    timeline.sort(key=lambda x: x[0])
+        elif r < 0.3:
+            tc = now + span * rng.choice([0.3, 0.5, 0.7])
+            timeline.append((tc, "cancel", (uid,)))
+            if rng.random() < 0.7:
+                # somebody else's task comes in while the cancelled one's executions are still about
+                uid2 = "n%d@verif" % i
+                text2, per2, lim2 = gen_task(rng, uid2, tc, span, force_limit=rng.choice([None, 1, 1, 2, 5]))
+                pers.append(per2)
+                # ... right away, or after some of them have ended
+                t2 = tc + rng.choice([0.0, 0.001, 0.5, 3.0, per * 0.7, per * 1.5, per * 3.2, span * 0.1])
+                if t2 < t_end - 1.0:
+                    timeline.append((t2, "add", (uid2, text2, lim2)))
+    timeline.sort(key=lambda x: (x[0], x[1] != "cancel"))
     # lifetimes relative to the periods in play: shorter, equal (ties with the next timer), longer, much longer, never
     lives = []
     style = rng.choice(["mixed", "long", "never", "tie", "short"])
